@@ -220,6 +220,12 @@ def gen_items(R, count):
         square = R.rng.random() < 0.5
         n = m if square else R.rng.randint(1, 6)
         P = V.rand_profile(R.rng, n, m)
+        if square and R.rng.random() < 0.4:
+            # near-unanimous rankings: the serial-dictatorship step of Match-TwoQueries pushes agents far down their lists, so the
+            # representative item is a low-ranked one and the copy-upwards loop runs over several positions
+            base = P[0]
+            P = [base[:] if R.rng.random() < 0.8 else P[i] for i in range(n)]
+            R.count("near_unanimous_profile")
         vals = E.gen_near_threshold(R.rng, P, m, k) if kind == "near_threshold" else E.gen_vals(R.rng, P, m, kind)
         rules = ["karv"] + (["tsf", "m2q"] if square else [])
         it = {"P": P, "vals": vals, "k": k, "rules": rules, "kind": kind, "el_zero": R.rng.random() < 0.6, "share": R.rng.random() < 0.5}
